@@ -2,7 +2,7 @@
 # confirm a seeded change in its scratch worktree: compiles (also --features parallel), the existing
 # suite passes with it, the demonstration fails with it and passes without it.
 # usage: tools/seeded_verify.sh <seed-id> <worktree>
-id=$1; wt=$2
+id=$1; wt=$2; feat=${3:-}
 set -u
 cd "$wt" || exit 2
 export CARGO_NET_OFFLINE=true
@@ -15,10 +15,10 @@ mv tests/seeded_demo.rs /tmp/seeded_demo_$id.rs
 echo "== build --features parallel (with change)"; cargo build --offline --features parallel 2>&1 | grep -E "^error|Finished" | head -3
 echo "== existing suite with change"; cargo test --workspace --offline 2>&1 | grep -E "^test result|FAILED|failed" | head -12
 mv /tmp/seeded_demo_$id.rs tests/seeded_demo.rs
-echo "== demo with change (must fail)"; cargo test --offline --test seeded_demo 2>&1 | grep -E "^test result|panicked" | head -4
+echo "== demo with change (must fail)"; cargo test --offline $feat --test seeded_demo 2>&1 | grep -E "^test result|panicked" | head -4
 # (no `git stash`: the stash is shared between the worktrees of one repository)
 git diff -- src > /tmp/seeded_src_$id.diff
 git checkout -q -- src
-echo "== demo without change (must pass)"; cargo test --offline --test seeded_demo 2>&1 | grep -E "^test result" | head -3
+echo "== demo without change (must pass)"; cargo test --offline $feat --test seeded_demo 2>&1 | grep -E "^test result" | head -3
 git apply /tmp/seeded_src_$id.diff && rm -f /tmp/seeded_src_$id.diff
 git diff --stat -- src | tail -1
